@@ -15,6 +15,7 @@
    C02) and share the pieces below. *)
 From GX.Model Require Import Base CMS Bloom HLL Cuckoo Heap TopK Redis RedisCMS RedisHLL RedisBloom RedisCuckoo RedisTopK.
 From GX.Proofs Require Import ListLemmas HLLProofs CMSProofs RedisCMSRefine RedisHLLRefine RedisBloomRefine.
+From GX.Proofs Require Import NonVacuity.
 From Coq Require Import Lia ZifyN ZifyBool.
 
 (* HyperLogLog: the Redis update rule (keep the larger of the stored value and uint8(count)) and
@@ -117,6 +118,9 @@ Proof. exact bloom_lookup_refines. Qed.
 Theorem C08_bloom_same_answers_on_every_history : forall bpos s h f xs x, brefines s h f ->
   rbloom_lookup bpos (rbrun' bpos s h xs) h x = Ok (bloom_lookup bpos (mbrun bpos f xs) x).
 Proof. exact redis_and_memory_bloom_agree. Qed.
+
+Example C08_bloom_premises_hold : exists s h f, brefines s h f /\ b_size f = 10.
+Proof. exact brefines_inhabited. Qed.
 
 Print Assumptions C08_hll_same_register_rule.
 Print Assumptions C08_cuckoo_same_positions.
